@@ -31,6 +31,8 @@ import (
 type Node struct {
 	Env *core.Env
 	Ctx sdk.Context
+	// AfterBegin, when set, runs once in the next block, after its BeginBlock and before its first transaction
+	AfterBegin func(n *Node)
 }
 
 func genesisNode() *Node { return newNode(Script{}) }
@@ -179,6 +181,12 @@ func (n *Node) RunBlock(b Block) []Step {
 	steps = append(steps, Step{What: "begin", Result: errStr(err), Events: eventsDigest(bb)})
 	if b.Pre != nil {
 		b.Pre(n)
+	}
+	if n.AfterBegin != nil {
+		// one-shot: something that happens in the process between this block's BeginBlock and its first transaction
+		f := n.AfterBegin
+		n.AfterBegin = nil
+		f(n)
 	}
 	for _, tx := range b.Txs {
 		st := n.deliverTx(tx)
@@ -487,6 +495,20 @@ func main() {
 		}
 		item++
 
+		// axis "prochist": the same committed history on a node whose PROCESS history differs - restarted at a block
+		// boundary (keeper-level in-memory caches dropped, as a new process would start with), or having served
+		// gas-estimation simulations of the next block's transactions (executed on a discarded branch)
+		for k := 0; k+1 < len(sc.Blocks); k++ {
+			for _, variant := range []string{"restart", "simulate", "simulate-mid"} {
+				mine := (f.Replay == "" && f.Mine(item) && axisOn("prochist")) || (only.Axis == "prochist:"+variant && only.K == k)
+				item++
+				if !mine {
+					continue
+				}
+				processHistoryAt(f, r, sc, refSteps, k, variant)
+			}
+		}
+
 		// axis "export": export/import after every block
 		for k := 0; k < len(sc.Blocks); k++ {
 			mine := (f.Replay == "" && f.Mine(item) && axisOn("export")) || (only.Axis == "export" && only.K == k)
@@ -514,6 +536,56 @@ func main() {
 	scanGoroutines(f, r)
 	r.DepthCompleted = 0
 	core.Finish(f, r)
+}
+
+// processHistoryAt replays blocks 0..k on a fresh node, then makes the node's process history differ from the
+// reference node's without touching the store, and requires identical results and state for the remaining blocks.
+func processHistoryAt(f *core.Flags, r *core.Result, sc Script, refSteps [][]Step, k int, variant string) {
+	rp := replayCfg{Script: sc.Name, Axis: "prochist:" + variant, K: k}
+	n := newNode(sc)
+	defer n.Env.Close()
+	for i := 0; i <= k; i++ {
+		n.RunBlock(sc.Blocks[i])
+	}
+	switch variant {
+	case "restart":
+		// what constructing the keepers anew does to their in-memory state (the store is what a restarted node reloads)
+		n.Env.App.PoolManagerKeeper.VerifDropCaches()
+		r.Vacuity["process_history_restarts"]++
+	case "simulate", "simulate-mid":
+		sim := func(n *Node) {
+			a := n.Env.App
+			for _, tx := range sc.Blocks[k+1].Txs {
+				func() {
+					defer func() { _ = recover() }()
+					child, _ := n.Ctx.CacheContext() // never written back
+					child = child.WithExecMode(sdk.ExecModeSimulate).WithEventManager(sdk.NewEventManager())
+					for _, m := range tx {
+						if res := core.Deliver(a, child, m); !res.OK() {
+							break
+						}
+					}
+				}()
+				r.Vacuity["process_history_discarded_simulations"]++
+			}
+		}
+		if variant == "simulate" {
+			sim(n) // between the blocks
+		} else {
+			n.AfterBegin = sim // while the next block is being executed: after its BeginBlock, before its transactions
+		}
+	}
+	for i := k + 1; i < len(sc.Blocks); i++ {
+		sb := n.RunBlock(sc.Blocks[i])
+		sa := refSteps[i]
+		r.Transitions += int64(len(sb))
+		if d := diffSteps(sa, sb, false); d != "" {
+			r.AddViolation(core.Violation{Property: f.Prop, Assertion: "c19.process-history-independent", Signature: sc.Name + "|" + variant + "|" + divergenceClass(sa, sb),
+				Detail: fmt.Sprintf("%s after block %d (same store, different process memory), first divergence in block %d %s: %s", variant, k, i, firstDiffStep(sa, sb), d), Replay: rp})
+			return
+		}
+	}
+	r.Traces++
 }
 
 func exportImportAt(f *core.Flags, r *core.Result, sc Script, refSteps [][]Step, k int) {
